@@ -246,11 +246,16 @@ def coincComplete (inp : Inp) : Bool :=
     (List.range (12 * inp.nBlocks)).all (fun w' =>
       if w / 12 != w' / 12 && samePair inp w w' then (inp.coinc w).contains w' else !(inp.coinc w).contains w'))
 
+/-- every listed neighbour axis exists and shares a wire with the axis (`Axis.add_neighbour` guarantees it) -/
+def nbrsValid (inp : Inp) : Bool :=
+  (List.range (3 * inp.nBlocks)).all (fun x =>
+    (inp.nbrs x).all (fun nb => decide (nb < 3 * inp.nBlocks) && (axisAligned inp nb x).isSome))
+
 def init (inp : Inp) : St := { spec := fun _ => [], mch := inp.chops }
 
 /-- `Mesh.grade`: grade_blocks, propagate_gradings, check_consistency -/
 def run (inp : Inp) : Except Err St :=
-  if !coincComplete inp then .error .badSchedule
+  if !(coincComplete inp && nbrsValid inp) then .error .badSchedule
   else
     match loop inp (4 * inp.nBlocks + 1) (gradeBlocks inp (init inp)) (List.range inp.nBlocks) with
     | .error e => .error e
